@@ -7,6 +7,7 @@ import AdbModel.Generated.Src
   and chunking theorems of C07.lean are about are the ones the source contains now.
   Only property theorems and non-vacuity examples live here.
 -/
+set_option linter.unusedSimpArgs false
 namespace Adb
 open Py
 
@@ -23,15 +24,15 @@ theorem C07_src_can_add (cls : String) (fs : List (String × Py.Val)) (sz idx md
     (h1 : alookupS "recv_message_size" fs = some (.int sz)) (h2 : alookupS "send_idx" fs = some (.int idx))
     (h3 : alookupS "_maxdata" fs = some (.int md)) :
     Src.FileSyncTransactionInfo_can_add_to_send_buffer (.obj cls fs) (.int n) = .ok (.bool (decide (idx + (sz + n) < md))) := by
-  simp [Src.FileSyncTransactionInfo_can_add_to_send_buffer, getAttr, h1, h2, h3, add, ltV, asInt, bind, Except.bind, pure, Except.pure]
-  omega
+  simp [Src.FileSyncTransactionInfo_can_add_to_send_buffer, pysimp, h1, h2, h3]
+  try omega
 
 /-- The same statement against the model structure: for a model `FsInfo` and an object carrying its three numbers, source and model agree. -/
 theorem C07_src_can_add_model (cls : String) (fs : List (String × Py.Val)) (fi : FsInfo) (n : Nat)
     (h1 : alookupS "recv_message_size" fs = some (.int fi.fmt.size)) (h2 : alookupS "send_idx" fs = some (.int fi.sendBuf.length))
     (h3 : alookupS "_maxdata" fs = some (.int fi.maxdata)) :
-    Src.FileSyncTransactionInfo_can_add_to_send_buffer (.obj cls fs) (.int n) = .ok (.bool (fi.canAdd n)) := by
-  rw [C07_src_can_add cls fs _ _ _ n h1 h2 h3]; rfl
+    Src.FileSyncTransactionInfo_can_add_to_send_buffer (.obj cls fs) (.int n) = .ok (.bool (fi.canAdd n)) :=
+  C07_src_can_add cls fs _ _ _ n h1 h2 h3
 
 /-- The constructor: for each of the four receive formats (the GENERATED `constants.FILESYNC_*_FORMAT` strings) and any `maxdata`, the source's
     `__init__` stores `recv_message_size = SyncFmt.size` (so `struct.calcsize` of the format is what the model uses), `send_idx = 0`, an empty
@@ -55,43 +56,47 @@ theorem C07_src_max_chunk_sync (cls : String) (fs : List (String × Py.Val)) (md
     Src.AdbDevice_max_chunk_size (.obj cls fs) = .ok (.int (maxChunkSize md)) := by
   have hc : Src.const_MAX_CHUNK_SIZE = .int (Generated.MAX_CHUNK_SIZE : Nat) := rfl
   have hp : Src.const_MAX_PUSH_DATA = .int (Generated.MAX_PUSH_DATA : Nat) := rfl
-  simp only [Src.AdbDevice_max_chunk_size, getAttr, h, floordiv, asInt, bind, Except.bind, pure, Except.pure, hc, hp]
-  have h2 : ¬ ((2 : Int) = 0) := by omega
-  simp only [h2, if_false, fdiv_two, min2_int, orV, truthy, bind, Except.bind, pure, Except.pure, maxChunkSize]
+  simp only [Src.AdbDevice_max_chunk_size, pysimp, h, hc, hp, maxChunkSize]
   generalize md / 2 = k
   generalize Generated.MAX_CHUNK_SIZE = c
+  generalize Generated.MAX_PUSH_DATA = p
   have h3 : min (c : Int) (k : Int) = ((min c k : Nat) : Int) := by omega
-  rw [h3]
+  have h3' : min (k : Int) (c : Int) = ((min c k : Nat) : Int) := by omega
+  simp only [h3, h3']
   by_cases hz : min c k = 0
   · have : ((min c k : Nat) : Int) = 0 := by omega
-    rw [if_neg (by simp; omega), if_pos hz]
-  · have : ((min c k : Nat) : Int) ≠ 0 := by omega
-    rw [if_pos (by simp; omega), if_neg hz]
+    simp [hz, this]
+  · have : ¬ ((min c k : Nat) : Int) = 0 := by omega
+    simp [hz, this]
 
 /-- `max_chunk_size` (async class): the same. -/
 theorem C07_src_max_chunk_async (cls : String) (fs : List (String × Py.Val)) (md : Nat) (h : alookupS "_maxdata" fs = some (.int md)) :
     Src.AdbDeviceAsync_max_chunk_size (.obj cls fs) = .ok (.int (maxChunkSize md)) := by
   have hc : Src.const_MAX_CHUNK_SIZE = .int (Generated.MAX_CHUNK_SIZE : Nat) := rfl
   have hp : Src.const_MAX_PUSH_DATA = .int (Generated.MAX_PUSH_DATA : Nat) := rfl
-  simp only [Src.AdbDeviceAsync_max_chunk_size, getAttr, h, floordiv, asInt, bind, Except.bind, pure, Except.pure, hc, hp]
-  have h2 : ¬ ((2 : Int) = 0) := by omega
-  simp only [h2, if_false, fdiv_two, min2_int, orV, truthy, bind, Except.bind, pure, Except.pure, maxChunkSize]
+  simp only [Src.AdbDeviceAsync_max_chunk_size, pysimp, h, hc, hp, maxChunkSize]
   generalize md / 2 = k
   generalize Generated.MAX_CHUNK_SIZE = c
+  generalize Generated.MAX_PUSH_DATA = p
   have h3 : min (c : Int) (k : Int) = ((min c k : Nat) : Int) := by omega
-  rw [h3]
+  have h3' : min (k : Int) (c : Int) = ((min c k : Nat) : Int) := by omega
+  simp only [h3, h3']
   by_cases hz : min c k = 0
   · have : ((min c k : Nat) : Int) = 0 := by omega
-    rw [if_neg (by simp; omega), if_pos hz]
-  · have : ((min c k : Nat) : Int) ≠ 0 := by omega
-    rw [if_pos (by simp; omega), if_neg hz]
+    simp [hz, this]
+  · have : ¬ ((min c k : Nat) : Int) = 0 := by omega
+    simp [hz, this]
 
-/-! ### Non-vacuity (kernel evaluation of the generated definitions) -/
-example : Src.AdbDevice_max_chunk_size (.obj "AdbDevice" [("_maxdata", .int 4096)]) = .ok (.int 2048) := by rfl
-example : Src.AdbDevice_max_chunk_size (.obj "AdbDevice" [("_maxdata", .int 1)]) = .ok (.int Generated.MAX_PUSH_DATA) := by rfl
+/-! ### Non-vacuity: the hypotheses are met by concrete objects (and the theorems then give the concrete values) -/
+example : Src.AdbDevice_max_chunk_size (.obj "AdbDevice" [("_maxdata", .int 4096)]) = .ok (.int 2048) := by
+  rw [C07_src_max_chunk_sync "AdbDevice" _ 4096 rfl]; rfl
+example : Src.AdbDevice_max_chunk_size (.obj "AdbDevice" [("_maxdata", .int 1)]) = .ok (.int (Generated.MAX_PUSH_DATA : Nat)) := by
+  rw [C07_src_max_chunk_sync "AdbDevice" _ 1 rfl]; rfl
 example : Src.FileSyncTransactionInfo_can_add_to_send_buffer (.obj "_FileSyncTransactionInfo"
-    [("recv_message_size", .int 8), ("send_idx", .int 4080), ("_maxdata", .int 4096)]) (.int 8) = .ok (.bool false) := by rfl
+    [("recv_message_size", .int 8), ("send_idx", .int 4080), ("_maxdata", .int 4096)]) (.int 8) = .ok (.bool false) :=
+  C07_src_can_add "_FileSyncTransactionInfo" _ 8 4080 4096 8 rfl rfl rfl
 example : Src.FileSyncTransactionInfo_can_add_to_send_buffer (.obj "_FileSyncTransactionInfo"
-    [("recv_message_size", .int 8), ("send_idx", .int 4080), ("_maxdata", .int 4096)]) (.int 7) = .ok (.bool true) := by rfl
+    [("recv_message_size", .int 8), ("send_idx", .int 4080), ("_maxdata", .int 4096)]) (.int 7) = .ok (.bool true) :=
+  C07_src_can_add "_FileSyncTransactionInfo" _ 8 4080 4096 7 rfl rfl rfl
 
 end Adb
